@@ -20,7 +20,7 @@ from mc.ref import queryeval as Q
 UTC = timezone.utc
 T0 = datetime(2020, 5, 5, 12, 0, 0, tzinfo=UTC)
 BOUNDS = {
-    "quick": {"pipelines": "query_bucket(b) ; u(e) ; u2(u1(e)) for 15 unary forms ; b(e1,e2), u(b(e1,e2)), b(u(e1),e2) for 4 binary forms ; aliasing form [u1(e), u2(e), e] ; each also followed by a statement that raises (unknown function / wrong type / unknown bucket)", "windows": "12 windows over the lattice incl. zero-width, empty, sub-ms shifted and +05:30 / -08:00 forms", "backends": list(S.BACKENDS)},
+    "quick": {"pipelines": "query_bucket(b) ; u(e) ; u2(u1(e)) for 15 unary forms ; b(e1,e2), u(b(e1,e2)), b(u(e1),e2) for 4 binary forms ; aliasing form [u1(e), u2(e), e] ; each also followed by a statement that raises (unknown function / wrong type / unknown bucket)", "refetch": "fetch, transform in place (each unary form), fetch again: second query_bucket / eventcount vs direct read for every window", "windows": "12 windows over the lattice incl. zero-width, empty, sub-ms shifted and +05:30 / -08:00 forms", "backends": list(S.BACKENDS)},
     "thorough": {"pipelines": "additionally depth 3: u3(u2(u1(e))) over the 8 in-place/clearing forms", "windows": "30 windows"},
 }
 RULE = (
@@ -181,6 +181,27 @@ def _unit(args):
                 ds = S.fresh(backend, ctx.wdir())
                 seed(ds)
                 base = full_dump(ds)
+    # scoping after work was done in the same query: fetch, transform in place, fetch AGAIN -- the
+    # second fetch must still equal a direct windowed read (a seeded per-query cache shared objects)
+    for wi, (a, b) in enumerate(ws):
+        for bid in ("b1", "b2"):
+            want = [S.ev_tuple(e) for e in ds[bid].get(-1, a, b)]
+            wantn = ds[bid].get_eventcount(a, b)
+            for u1 in unary(("var", "e")):
+                prog = (("e", ("call", "query_bucket", (S_(bid),))), ("x", u1), ("n", ("call", "query_bucket_eventcount", (S_(bid),))), ("RETURN", L_(("call", "query_bucket", (S_(bid),)), ("var", "n"))))
+                text = Q.pr_program(prog, Q.SPACED)
+                u.evaluations += 1
+                u.transitions += 1
+                u.states += 1
+                u.nontrivial += 1 if u1[1] in MUTATORS else 0
+                try:
+                    res = query2.query("q", text, a, b, ds)
+                    got, gotn = [S.ev_tuple(e) for e in res[0]], res[1]
+                except Exception as e:
+                    u.hist["refetch_raised_" + type(e).__name__] += 1
+                    continue
+                if got != want or gotn != wantn:
+                    u.violation(f"{backend}:second-query_bucket-differs-from-windowed-read", f"{backend} {text!r} window {a.isoformat()}..{b.isoformat()}: second fetch {got[:2]}.. count {gotn}; direct read {want[:2]}.. count {wantn}", {"backend": backend, "text": text, "window": [a.isoformat(), b.isoformat()], "kind": "refetch", "bucket": bid}, size=len(text))
     # scoping: query_bucket / eventcount == direct windowed read
     for wi, (a, b) in enumerate(ws):
         for bid in ("b1", "b2", "empty"):
@@ -243,6 +264,12 @@ def run_case(ctx, case):
         n = query2.query("q", f'RETURN = query_bucket_eventcount("{bid}");', a, b, ds)
         m = ds[bid].get_eventcount(a, b)
         return {"query_bucket": got, "direct": want, "counts": [n, m], "violations": ([["query_bucket-differs", ""]] if got != want else []) + ([["count-differs", ""]] if n != m else [])}
+    if case.get("kind") == "refetch":
+        bid = case["bucket"]
+        want = [S.ev_tuple(e) for e in ds[bid].get(-1, a, b)]
+        res = query2.query("q", case["text"], a, b, ds)
+        got = [S.ev_tuple(e) for e in res[0]]
+        return {"second_fetch": got, "direct": want, "violations": [] if got == want and res[1] == ds[bid].get_eventcount(a, b) else [["second-query_bucket-differs", ""]]}
     base = full_dump(ds)
     try:
         query2.query("q", case["text"], a, b, ds)
